@@ -78,7 +78,7 @@ def rnd_expr(rng, vars_, depth, rational=True, pool=None):
 
 
 def gen_definition(rng, *, rational=True, max_states=5, max_controls=3, max_cal=3, max_sensors=3, max_readings=4,
-                   min_sensors=0, force_control=None, force_cal=None, singular=False, int_cal=False, force_fold=False, force_bilinear=False):
+                   min_sensors=0, force_control=None, force_cal=None, singular=False, int_cal=False, force_fold=False, force_bilinear=False, tiny_sensor_noise=False):
     names = rng.sample(NAME_POOL, len(NAME_POOL))
     ns = rng.randint(2 if force_bilinear else 1, max_states)
     if force_bilinear:
@@ -127,7 +127,8 @@ def gen_definition(rng, *, rational=True, max_states=5, max_controls=3, max_cal=
         "dt": "dt", "state": state, "control": control, "calibration": cal,
         "state_model": sm, "sensors": sensors,
         "process_noise": {u: rng.choice([0.25, 0.5, 1.0, 2.0, 0.125, 2.5e-7, 4e-10, 1e-3, 0.0, 0]) for u in control},
-        "sensor_noise": {k: {r: rng.choice([0.25, 0.5, 1.0, 2.0, 0.0625, 0.25, 1.0, 4e-12, 1e-10]) for r in rd} for k, rd in sensors.items()},
+        # tiny values only on request: they make the update ill-conditioned, which only the checks with a conditioning guard can use
+        "sensor_noise": {k: {r: rng.choice([0.25, 0.5, 1.0, 2.0, 0.0625, 0.25, 1.0] + ([4e-12, 1e-10] if tiny_sensor_noise else [])) for r in rd} for k, rd in sensors.items()},
         "calibration_map": cmap,
         "rational": rational,
     }
